@@ -1,7 +1,256 @@
-(* NumProofs.v — theorems about the %num model (Num.v). *)
-From Coq Require Import QArith Lia.
+(* NumProofs.v — theorems about the rational kernel and the exported operations of the %num model
+   (Num.v) on integer / rational operands.  The surd kernel is in NumSurd.v. *)
+From Coq Require Import QArith Qabs Lia ZArith Znumtheory.
 From Quiver Require Import Base Num.
 Open Scope Z_scope.
+
+(* ---------------------------------------------------------------- vocabulary *)
+
+(* canonical form: denominator positive, lowest terms *)
+Definition canon (r : rat) : Prop := let '(Rat n d) := r in 0 < d /\ Z.gcd n d = 1.
+(* the value of a rational with positive denominator, in Coq's Q *)
+Definition qval (r : rat) : Q := let '(Rat n d) := r in Qmake n (Z.to_pos d).
+(* well-formed coefficient, its value *)
+Definition wfc (c : coeff) : Prop := canon (to_rational c).
+Definition cq (c : coeff) : Q := qval (to_rational c).
+Definition is_int (c : coeff) : Prop := match c with CInt _ => True | CRat _ _ => False end.
+
+Lemma wfc_int z : wfc (CInt z).
+Proof. unfold wfc, canon, to_rational. split; [lia | apply Z.gcd_1_r]. Qed.
+
+Lemma cq_int z : cq (CInt z) = inject_Z z.
+Proof. reflexivity. Qed.
+
+Lemma qval_div n d : 0 < d -> qval (Rat n d) == inject_Z n / inject_Z d.
+Proof.
+  intros Hd. unfold qval. rewrite Qmake_Qdiv. rewrite Z2Pos.id by assumption. reflexivity.
+Qed.
+
+(* Qeq / Qcompare on values are cross-multiplication *)
+Lemma qval_eq a b c d : 0 < b -> 0 < d -> (qval (Rat a b) == qval (Rat c d) <-> a * d = c * b).
+Proof.
+  intros Hb Hd. unfold qval, Qeq. cbn [Qnum Qden]. rewrite !Z2Pos.id by assumption. reflexivity.
+Qed.
+
+Lemma qval_compare a b c d : 0 < b -> 0 < d ->
+  (qval (Rat a b) ?= qval (Rat c d))%Q = (a * d ?= c * b).
+Proof.
+  intros Hb Hd. unfold qval, Qcompare. cbn [Qnum Qden]. rewrite !Z2Pos.id by assumption. reflexivity.
+Qed.
+
+(* a canonical form is determined by its value *)
+Lemma canon_unique a b c d :
+  canon (Rat a b) -> canon (Rat c d) -> a * d = c * b -> a = c /\ b = d.
+Proof.
+  intros [Hb Gb] [Hd Gd] E.
+  assert (Hbd : (b | d)).
+  { apply Z.gauss with (m := a); [| rewrite Z.gcd_comm; exact Gb]. exists c. exact E. }
+  assert (Hdb : (d | b)).
+  { apply Z.gauss with (m := c); [| rewrite Z.gcd_comm; exact Gd]. exists a. symmetry. exact E. }
+  assert (b = d) by (apply Z.divide_antisym_nonneg; [lia | lia | exact Hbd | exact Hdb]).
+  subst d. split; [nia | reflexivity].
+Qed.
+
+Lemma canon_qval_unique x y : canon x -> canon y -> qval x == qval y -> x = y.
+Proof.
+  destruct x as [a b], y as [c d]. intros Hx Hy E.
+  pose proof Hx as [Hb _]. pose proof Hy as [Hd _].
+  apply (qval_eq a b c d Hb Hd) in E.
+  destruct (canon_unique _ _ _ _ Hx Hy E). congruence.
+Qed.
+
+(* ---------------------------------------------------------------- builtins *)
+Lemma bi_compare_cases a b :
+  (a < b /\ bi_compare a b = -1) \/ (a = b /\ bi_compare a b = 0) \/ (b < a /\ bi_compare a b = 1).
+Proof.
+  unfold bi_compare. destruct (Z.compare_spec a b); [right; left | left | right; right]; auto.
+Qed.
+
+Lemma bi_compare_neg a b : (bi_compare a b =? -1) = (a <? b).
+Proof. destruct (bi_compare_cases a b) as [[H E]|[[H E]|[H E]]]; rewrite E; cbn; symmetry; [apply Z.ltb_lt | apply Z.ltb_ge | apply Z.ltb_ge]; lia. Qed.
+Lemma bi_compare_zero a b : (bi_compare a b =? 0) = (a =? b).
+Proof. destruct (bi_compare_cases a b) as [[H E]|[[H E]|[H E]]]; rewrite E; cbn; symmetry; [apply Z.eqb_neq | apply Z.eqb_eq | apply Z.eqb_neq]; lia. Qed.
+Lemma bi_compare_pos a b : (bi_compare a b =? 1) = (b <? a).
+Proof. destruct (bi_compare_cases a b) as [[H E]|[[H E]|[H E]]]; rewrite E; cbn; symmetry; [apply Z.ltb_ge | apply Z.ltb_ge | apply Z.ltb_lt]; lia. Qed.
+
+Lemma bi_divide_ok a b : b <> 0 -> bi_divide a b = Val (Z.quot a b).
+Proof. intros H. unfold bi_divide. destruct (Z.eqb_spec b 0); [contradiction | reflexivity]. Qed.
+
+(* ---------------------------------------------------------------- reduce *)
+
+Definition reduce_body (n d : Z) : outcome rat :=
+  let g := bi_gcd n d in n' <- bi_divide n g ;; d' <- bi_divide d g ;; Val (Rat n' d').
+
+Lemma reduce_f_S f n d :
+  reduce_f (S f) (Rat n d) =
+  if bi_compare d 0 =? -1 then reduce_f f (Rat (n * -1) (d * -1)) else reduce_body n d.
+Proof. reflexivity. Qed.
+
+Lemma reduce_body_eq n d : 0 < d ->
+  reduce_body n d = Val (Rat (n / Z.gcd n d) (d / Z.gcd n d)).
+Proof.
+  intros Hd. unfold reduce_body, bi_gcd.
+  assert (Hg : Z.gcd n d <> 0) by (intros E; apply Z.gcd_eq_0_r in E; lia).
+  cbv zeta. rewrite !bi_divide_ok by assumption. cbn [obind].
+  rewrite !Z.quot_div_exact by (auto using Z.gcd_divide_l, Z.gcd_divide_r). reflexivity.
+Qed.
+
+(* closed form of reduce for every non-zero denominator; in particular fuel 2 suffices *)
+Lemma reduce_eq n d : d <> 0 ->
+  reduce (Rat n d) = Val (Rat (Z.sgn d * n / Z.gcd n d) (Z.abs d / Z.gcd n d)).
+Proof.
+  intros Hd. unfold reduce. rewrite reduce_f_S, bi_compare_neg.
+  destruct (Z.ltb_spec d 0) as [Hneg|Hpos].
+  - rewrite reduce_f_S, bi_compare_neg.
+    destruct (Z.ltb_spec (d * -1) 0) as [H|_]; [lia |].
+    rewrite reduce_body_eq by lia.
+    replace (n * -1) with (- n) by lia. replace (d * -1) with (- d) by lia.
+    rewrite Z.gcd_opp_l, Z.gcd_opp_r.
+    replace (Z.sgn d) with (-1) by lia. replace (Z.abs d) with (- d) by lia.
+    replace (-1 * n) with (- n) by lia. reflexivity.
+  - rewrite reduce_body_eq by lia.
+    replace (Z.sgn d) with 1 by lia. replace (Z.abs d) with d by lia.
+    replace (1 * n) with n by lia. reflexivity.
+Qed.
+
+(* reduce yields the canonical form and preserves the value (cross-multiplied) *)
+Lemma reduce_spec n d : d <> 0 ->
+  exists n' d', reduce (Rat n d) = Val (Rat n' d') /\ canon (Rat n' d') /\ n' * d = n * d'.
+Proof.
+  intros Hd. rewrite reduce_eq by assumption.
+  remember (Z.gcd n d) as g eqn:Hgdef.
+  assert (Hg : 0 < g).
+  { pose proof (Z.gcd_nonneg n d). assert (g <> 0) by (subst g; intros E; apply Z.gcd_eq_0_r in E; lia). lia. }
+  assert (Hdn : (g | n)) by (subst g; apply Z.gcd_divide_l).
+  assert (Hdd : (g | d)) by (subst g; apply Z.gcd_divide_r).
+  destruct Hdn as [qn Hn]. destruct Hdd as [qd Hdv].
+  exists (Z.sgn d * n / g), (Z.abs d / g). split; [reflexivity |].
+  assert (E1 : Z.sgn d * n / g = Z.sgn d * qn).
+  { rewrite Hn. rewrite Z.mul_assoc. apply Z.div_mul. lia. }
+  assert (E2 : Z.abs d / g = Z.abs qd).
+  { rewrite Hdv. rewrite Z.abs_mul. rewrite (Z.abs_eq g) by lia. apply Z.div_mul. lia. }
+  split.
+  - unfold canon. split.
+    + rewrite E2. assert (qd <> 0) by (intros ->; lia). lia.
+    + assert (G : Z.gcd (Z.sgn d * n) (Z.abs d) = g).
+      { rewrite Hgdef. destruct (Z.sgn_spec d) as [[? S]|[[? S]|[? S]]]; rewrite S.
+        - replace (1 * n) with n by lia. now rewrite Z.gcd_abs_r.
+        - lia.
+        - replace (-1 * n) with (- n) by lia. now rewrite Z.gcd_opp_l, Z.gcd_abs_r. }
+      apply Z.gcd_div_gcd; [lia | now symmetry].
+  - rewrite E1, E2. clear E1 E2 Hgdef.
+    destruct (Z.sgn_spec d) as [[Hs S]|[[Hs S]|[Hs S]]]; rewrite S; clear S.
+    + assert (0 < qd) by nia. rewrite (Z.abs_eq qd) by lia. subst n d. ring.
+    + lia.
+    + assert (qd < 0) by nia. rewrite (Z.abs_neq qd) by lia. subst n d. ring.
+Qed.
+
+(* value preservation stated in Q, for any non-zero (possibly negative) denominator *)
+Lemma reduce_value n d r : d <> 0 -> reduce (Rat n d) = Val r ->
+  canon r /\ qval r == inject_Z n / inject_Z d.
+Proof.
+  intros Hd E. destruct (reduce_spec n d Hd) as (n' & d' & E' & C & X).
+  rewrite E in E'. injection E' as ->. split; [exact C |].
+  destruct C as [Hd' _]. rewrite qval_div by assumption.
+  assert (Hq : ~ inject_Z d == 0) by (change 0%Q with (inject_Z 0); rewrite inject_Z_injective; lia).
+  assert (Hq' : ~ inject_Z d' == 0) by (change 0%Q with (inject_Z 0); rewrite inject_Z_injective; lia).
+  apply (Qmult_inj_r _ _ (inject_Z d' * inject_Z d)).
+  { intros Z0. apply Qmult_integral in Z0. tauto. }
+  transitivity (inject_Z (n' * d)); [rewrite inject_Z_mult; field; assumption |].
+  rewrite X. rewrite inject_Z_mult. field. assumption.
+Qed.
+
+(* reduce is the identity on canonical forms *)
+Lemma reduce_canon_id r : canon r -> reduce r = Val r.
+Proof.
+  destruct r as [n d]. intros [Hd G]. rewrite reduce_eq by lia. rewrite G.
+  rewrite !Z.div_1_r. replace (Z.sgn d) with 1 by lia. replace (Z.abs d) with d by lia.
+  now replace (1 * n) with n by lia.
+Qed.
+
+(* ---------------------------------------------------------------- rational arithmetic kernel *)
+
+Lemma reduce_q n d : 0 < d ->
+  exists r, reduce (Rat n d) = Val r /\ canon r /\ qval r == qval (Rat n d).
+Proof.
+  intros Hd. destruct (reduce_spec n d) as (n' & d' & E & C & X); [lia |].
+  exists (Rat n' d'). split; [exact E | split; [exact C |]].
+  destruct C as [Hd' _]. apply qval_eq; assumption.
+Qed.
+
+Lemma radd_spec x y : canon x -> canon y ->
+  exists r, radd x y = Val r /\ canon r /\ qval r == qval x + qval y.
+Proof.
+  destruct x as [a b], y as [c d]. intros [Hb _] [Hd _]. unfold radd.
+  destruct (reduce_q (a * d + c * b) (b * d)) as (r & E & C & V); [nia |].
+  exists r. split; [exact E | split; [exact C |]]. rewrite V.
+  unfold qval, Qplus, Qeq. cbn [Qnum Qden]. rewrite Pos2Z.inj_mul, !Z2Pos.id by nia. ring.
+Qed.
+
+Lemma rsub_spec x y : canon x -> canon y ->
+  exists r, rsub x y = Val r /\ canon r /\ qval r == qval x - qval y.
+Proof.
+  destruct x as [a b], y as [c d]. intros [Hb _] [Hd _]. unfold rsub.
+  destruct (reduce_q (a * d - c * b) (b * d)) as (r & E & C & V); [nia |].
+  exists r. split; [exact E | split; [exact C |]]. rewrite V.
+  unfold qval, Qminus, Qplus, Qopp, Qeq. cbn [Qnum Qden]. rewrite Pos2Z.inj_mul, !Z2Pos.id by nia. ring.
+Qed.
+
+Lemma rmul_spec x y : canon x -> canon y ->
+  exists r, rmul x y = Val r /\ canon r /\ qval r == qval x * qval y.
+Proof.
+  destruct x as [a b], y as [c d]. intros [Hb _] [Hd _]. unfold rmul.
+  destruct (reduce_q (a * c) (b * d)) as (r & E & C & V); [nia |].
+  exists r. split; [exact E | split; [exact C |]]. rewrite V.
+  unfold qval, Qmult, Qeq. cbn [Qnum Qden]. rewrite Pos2Z.inj_mul, !Z2Pos.id by nia. ring.
+Qed.
+
+Lemma qval_zero n d : 0 < d -> (qval (Rat n d) == 0 <-> n = 0).
+Proof.
+  intros Hd. unfold qval, Qeq. cbn [Qnum Qden]. lia.
+Qed.
+
+Lemma rquot_spec x y : canon x -> canon y -> ~ qval y == 0 ->
+  exists r, rquot x y = Val r /\ canon r /\ qval r == qval x / qval y.
+Proof.
+  destruct x as [a b], y as [c d]. intros [Hb _] [Hd _] Hnz. unfold rquot.
+  assert (Hc : c <> 0) by (intros ->; apply Hnz; apply qval_zero; [assumption | reflexivity]).
+  destruct (reduce_spec (a * d) (b * c)) as (n' & d' & E & C & X); [nia |].
+  exists (Rat n' d'). split; [exact E | split; [exact C |]].
+  destruct C as [Hd' _].
+  rewrite !qval_div by assumption.
+  assert (Hqb : ~ inject_Z b == 0) by (change 0%Q with (inject_Z 0); rewrite inject_Z_injective; lia).
+  assert (Hqc : ~ inject_Z c == 0) by (change 0%Q with (inject_Z 0); rewrite inject_Z_injective; lia).
+  assert (Hqd : ~ inject_Z d == 0) by (change 0%Q with (inject_Z 0); rewrite inject_Z_injective; lia).
+  assert (Hqd' : ~ inject_Z d' == 0) by (change 0%Q with (inject_Z 0); rewrite inject_Z_injective; lia).
+  apply (Qmult_inj_r _ _ (inject_Z d' * (inject_Z b * inject_Z c))).
+  { intros Z0. apply Qmult_integral in Z0. destruct Z0 as [Z0|Z0]; [tauto |].
+    apply Qmult_integral in Z0. tauto. }
+  transitivity (inject_Z (n' * (b * c))); [rewrite !inject_Z_mult; field; assumption |].
+  rewrite X. rewrite !inject_Z_mult. field. repeat split; assumption.
+Qed.
+
+Lemma rneg_spec x : canon x -> exists r, rneg x = Val r /\ canon r /\ qval r == - qval x.
+Proof.
+  destruct x as [a b]. intros [Hb _]. unfold rneg.
+  destruct (reduce_q (a * -1) b) as (r & E & C & V); [lia |].
+  exists r. split; [exact E | split; [exact C |]]. rewrite V.
+  unfold qval, Qopp, Qeq. cbn [Qnum Qden]. ring.
+Qed.
+
+Lemma rcompare_spec x y : canon x -> canon y ->
+  rcompare x y = match (qval x ?= qval y)%Q with Lt => -1 | Eq => 0 | Gt => 1 end.
+Proof.
+  destruct x as [a b], y as [c d]. intros [Hb _] [Hd _]. unfold rcompare, bi_compare.
+  now rewrite qval_compare.
+Qed.
+
+Lemma rsign_spec x : canon x ->
+  rsign x = match (qval x ?= 0)%Q with Lt => -1 | Eq => 0 | Gt => 1 end.
+Proof.
+  destruct x as [a b]. intros [Hb _]. unfold rsign, bi_compare, qval, Qcompare. cbn [Qnum Qden].
+  now rewrite Z.mul_1_r, Z.mul_0_l.
+Qed.
 
 (* ---------------------------------------------------------------- nil propagation *)
 Lemma nil_propagates_unary :
@@ -9,3 +258,284 @@ Lemma nil_propagates_unary :
   numer None = Val None /\ denom None = Val None /\ to_int None = Val None /\ floor None = Val None /\
   ceil None = Val None /\ round None = Val None.
 Proof. repeat split; reflexivity. Qed.
+
+Lemma nil_propagates_left :
+  forall y z, add None y = Val None /\ sub None y = Val None /\ mul None y = Val None /\ div None y = Val None /\
+    min None y = Val None /\ max None y = Val None /\ clamp None y z = Val None /\
+    eqp None y = Val false /\ ltp None y = Val false /\ lep None y = Val false /\
+    gtp None y = Val false /\ gep None y = Val false.
+Proof. intros. repeat split; reflexivity. Qed.
+
+Lemma nil_propagates_right :
+  forall x z, add x None = Val None /\ sub x None = Val None /\ mul x None = Val None /\ div x None = Val None /\
+    min x None = Val None /\ max x None = Val None /\ clamp x None z = Val None /\ clamp x z None = Val None /\
+    eqp x None = Val false /\ ltp x None = Val false /\ lep x None = Val false /\
+    gtp x None = Val false /\ gep x None = Val false.
+Proof.
+  intros x z. repeat split;
+    try (destruct x as [[[?|? ?]|? ? ?]|]; reflexivity);
+    destruct x as [[[?|? ?]|? ? ?]|]; destruct z as [[[?|? ?]|? ? ?]|]; reflexivity.
+Qed.
+
+(* ---------------------------------------------------------------- exported operations on int/rational operands *)
+Definition zcmp (c : comparison) : Z := match c with Lt => -1 | Eq => 0 | Gt => 1 end.
+
+Lemma wfc_rat n d : wfc (CRat n d) = canon (Rat n d).
+Proof. reflexivity. Qed.
+
+Lemma inject_Z_sub a b : inject_Z (a - b) == inject_Z a - inject_Z b.
+Proof. unfold Z.sub. rewrite inject_Z_plus, inject_Z_opp. reflexivity. Qed.
+
+(* add/sub/mul: exact value; int op int stays int; any rational operand gives a canonical Rational *)
+Lemma arith_coeff sop rop iop (qop : Q -> Q -> Q) x y :
+  (forall a b, canon a -> canon b -> exists r, rop a b = Val r /\ canon r /\ qval r == qop (qval a) (qval b)) ->
+  (forall a b, inject_Z (iop a b) == qop (inject_Z a) (inject_Z b)) ->
+  wfc x -> wfc y ->
+  exists r, arith sop rop iop (Some (NC x)) (Some (NC y)) = Val (Some (NC r)) /\ wfc r /\
+            cq r == qop (cq x) (cq y) /\ (is_int r <-> is_int x /\ is_int y).
+Proof.
+  intros Hrop Hiop Hx Hy.
+  destruct x as [a|a b].
+  - destruct y as [c|c d].
+    + exists (CInt (iop a c)). cbn [arith]. split; [reflexivity |]. split; [apply wfc_int |].
+      split; [rewrite !cq_int; apply Hiop | cbn; tauto].
+    + destruct (Hrop (to_rational (CInt a)) (Rat c d)) as (r & E & C & V); [apply wfc_int | exact Hy |].
+      destruct r as [n' d']. exists (CRat n' d'). cbn [arith]. rewrite E. cbn [obind rat_coeff].
+      split; [reflexivity |]. split; [exact C |]. split; [exact V | cbn; tauto].
+  - destruct (Hrop (Rat a b) (to_rational y)) as (r & E & C & V); [exact Hx | exact Hy |].
+    destruct r as [n' d']. exists (CRat n' d'). cbn [arith].
+    assert (E' : arith sop rop iop (Some (NC (CRat a b))) (Some (NC y)) = Val (Some (NC (CRat n' d')))).
+    { destruct y; cbn [arith]; rewrite E; reflexivity. }
+    split; [exact E' |]. split; [exact C |]. split; [exact V | cbn; tauto].
+Qed.
+
+Lemma add_coeff x y : wfc x -> wfc y ->
+  exists r, add (Some (NC x)) (Some (NC y)) = Val (Some (NC r)) /\ wfc r /\
+            cq r == cq x + cq y /\ (is_int r <-> is_int x /\ is_int y).
+Proof. apply arith_coeff; [apply radd_spec | intros; rewrite inject_Z_plus; reflexivity]. Qed.
+Lemma sub_coeff x y : wfc x -> wfc y ->
+  exists r, sub (Some (NC x)) (Some (NC y)) = Val (Some (NC r)) /\ wfc r /\
+            cq r == cq x - cq y /\ (is_int r <-> is_int x /\ is_int y).
+Proof. apply arith_coeff; [apply rsub_spec | apply inject_Z_sub]. Qed.
+Lemma mul_coeff x y : wfc x -> wfc y ->
+  exists r, mul (Some (NC x)) (Some (NC y)) = Val (Some (NC r)) /\ wfc r /\
+            cq r == cq x * cq y /\ (is_int r <-> is_int x /\ is_int y).
+Proof. apply arith_coeff; [apply rmul_spec | intros; rewrite inject_Z_mult; reflexivity]. Qed.
+
+Lemma add_int a b : add (Some (NInt a)) (Some (NInt b)) = Val (Some (NInt (a + b))).
+Proof. reflexivity. Qed.
+Lemma sub_int a b : sub (Some (NInt a)) (Some (NInt b)) = Val (Some (NInt (a - b))).
+Proof. reflexivity. Qed.
+Lemma mul_int a b : mul (Some (NInt a)) (Some (NInt b)) = Val (Some (NInt (a * b))).
+Proof. reflexivity. Qed.
+
+(* div: always a canonical Rational, or nil exactly when the divisor is zero *)
+Lemma div_coeff x y : wfc x -> wfc y ->
+  (cq y == 0 -> div (Some (NC x)) (Some (NC y)) = Val None) /\
+  (~ cq y == 0 -> exists n d, div (Some (NC x)) (Some (NC y)) = Val (Some (NRat n d)) /\
+                             canon (Rat n d) /\ qval (Rat n d) == cq x / cq y).
+Proof.
+  intros Hx Hy. unfold cq, wfc in *.
+  assert (E : div (Some (NC x)) (Some (NC y)) =
+              let '(Rat a b) := to_rational x in let '(Rat c d) := to_rational y in
+              if c =? 0 then Val None else r <- reduce (Rat (a * d) (b * c)) ;; Val (Some (NC (rat_coeff r)))).
+  { destruct x, y; reflexivity. }
+  rewrite E. clear E.
+  destruct (to_rational x) as [a b] eqn:Ex. destruct (to_rational y) as [c d] eqn:Ey.
+  pose proof Hy as [Hd _].
+  split.
+  - intros Z0. apply qval_zero in Z0; [| exact Hd]. subst c. reflexivity.
+  - intros Hnz. destruct (rquot_spec (Rat a b) (Rat c d) Hx Hy Hnz) as ([n' d'] & Er & C & V).
+    assert (Hc : c <> 0) by (intros ->; apply Hnz; apply qval_zero; [assumption | reflexivity]).
+    destruct (Z.eqb_spec c 0) as [?|_]; [contradiction |].
+    unfold rquot in Er. rewrite Er. cbn [obind rat_coeff]. exists n', d'. split; [reflexivity | split; assumption].
+Qed.
+
+Lemma compare_coeff x y : wfc x -> wfc y ->
+  compare (Some (NC x)) (Some (NC y)) = Val (Some (zcmp (cq x ?= cq y)%Q)).
+Proof.
+  intros Hx Hy.
+  destruct x as [a|a b].
+  - destruct y as [c|c d].
+    + cbn [compare]. unfold bi_compare, cq, to_rational, qval, Qcompare, zcmp. cbn [Qnum Qden].
+      now rewrite !Z.mul_1_r.
+    + cbn [compare]. rewrite rcompare_spec; [reflexivity | apply wfc_int | exact Hy].
+  - assert (E : compare (Some (NC (CRat a b))) (Some (NC y)) = Val (Some (rcompare (Rat a b) (to_rational y)))).
+    { destruct y; reflexivity. }
+    rewrite E. rewrite rcompare_spec; [reflexivity | exact Hx | exact Hy].
+Qed.
+
+Lemma sign_coeff x : wfc x -> sign (Some (NC x)) = Val (Some (zcmp (cq x ?= 0)%Q)).
+Proof. intros Hx. unfold sign, NInt. rewrite compare_coeff; [reflexivity | exact Hx | apply wfc_int]. Qed.
+
+Lemma preds_coeff x y : wfc x -> wfc y ->
+  let X := Some (NC x) in let Y := Some (NC y) in
+  (exists b, eqp X Y = Val b /\ (b = true <-> cq x == cq y)) /\
+  (exists b, ltp X Y = Val b /\ (b = true <-> (cq x < cq y)%Q)) /\
+  (exists b, lep X Y = Val b /\ (b = true <-> (cq x <= cq y)%Q)) /\
+  (exists b, gtp X Y = Val b /\ (b = true <-> (cq y < cq x)%Q)) /\
+  (exists b, gep X Y = Val b /\ (b = true <-> (cq y <= cq x)%Q)).
+Proof.
+  intros Hx Hy X Y. unfold eqp, ltp, lep, gtp, gep, pred, X, Y.
+  rewrite compare_coeff by assumption. cbn [obind].
+  destruct (cq x ?= cq y)%Q eqn:C; cbn; repeat split; eexists; (split; [reflexivity |]);
+    rewrite ?Qeq_alt, ?Qlt_alt, ?Qle_alt; rewrite <- ?(Qcompare_antisym (cq x) (cq y)), ?C; cbn;
+    split; congruence.
+Qed.
+
+(* neg / abs preserve the kind *)
+Lemma neg_coeff x : wfc x ->
+  exists r, neg (Some (NC x)) = Val (Some (NC r)) /\ wfc r /\ cq r == - cq x /\ (is_int r <-> is_int x).
+Proof.
+  intros Hx. destruct x as [a|a b].
+  - exists (CInt (a * -1)). split; [reflexivity |]. split; [apply wfc_int |]. split; [| cbn; tauto].
+    rewrite !cq_int. replace (a * -1) with (- a) by lia. rewrite inject_Z_opp. reflexivity.
+  - destruct (rneg_spec (Rat a b) Hx) as ([n' d'] & E & C & V).
+    exists (CRat n' d'). cbn [neg]. unfold rneg in E. rewrite E. cbn [obind rat_coeff].
+    split; [reflexivity |]. split; [exact C |]. split; [exact V | cbn; tauto].
+Qed.
+
+Lemma abs_coeff x : wfc x ->
+  exists r, abs (Some (NC x)) = Val (Some (NC r)) /\ wfc r /\ cq r == Qabs (cq x) /\ (is_int r <-> is_int x).
+Proof.
+  intros Hx. destruct x as [a|a b].
+  - exists (CInt (Z.abs a)). split; [reflexivity |]. split; [apply wfc_int |]. split; [| cbn; tauto].
+    reflexivity.
+  - exists (CRat (Z.abs a) b). split; [reflexivity |]. destruct Hx as [Hb G]. split.
+    + split; [exact Hb | now rewrite Z.gcd_abs_l].
+    + split; [reflexivity | cbn; tauto].
+Qed.
+
+Lemma numer_denom_coeff x : wfc x ->
+  exists n d, numer (Some (NC x)) = Val (Some n) /\ denom (Some (NC x)) = Val (Some d) /\
+              0 < d /\ Z.gcd n d = 1 /\ cq x == inject_Z n / inject_Z d.
+Proof.
+  intros Hx. destruct x as [a|a b].
+  - exists a, 1. repeat split; try reflexivity; try lia. { apply Z.gcd_1_r. }
+    rewrite cq_int. unfold Qdiv. change (inject_Z 1) with 1%Q. field.
+  - exists a, b. destruct Hx as [Hb G]. repeat split; try reflexivity; try assumption.
+    unfold cq. cbn [to_rational]. now apply qval_div.
+Qed.
+
+(* min / max / clamp on int/rational operands *)
+Lemma min_coeff x y : wfc x -> wfc y ->
+  exists r, min (Some (NC x)) (Some (NC y)) = Val (Some (NC r)) /\ (r = x \/ r = y) /\
+            (cq r <= cq x)%Q /\ (cq r <= cq y)%Q.
+Proof.
+  intros Hx Hy. unfold min. rewrite compare_coeff by assumption. cbn [obind].
+  destruct (cq x ?= cq y)%Q eqn:C; cbn [zcmp].
+  - exists x. split; [reflexivity |]. split; [now left |]. apply Qeq_alt in C. split; [apply Qle_refl | rewrite C; apply Qle_refl].
+  - exists x. split; [reflexivity |]. split; [now left |]. apply Qlt_alt in C. split; [apply Qle_refl | now apply Qlt_le_weak].
+  - exists y. split; [reflexivity |]. split; [now right |]. apply Qgt_alt in C. split; [now apply Qlt_le_weak | apply Qle_refl].
+Qed.
+
+Lemma max_coeff x y : wfc x -> wfc y ->
+  exists r, max (Some (NC x)) (Some (NC y)) = Val (Some (NC r)) /\ (r = x \/ r = y) /\
+            (cq x <= cq r)%Q /\ (cq y <= cq r)%Q.
+Proof.
+  intros Hx Hy. unfold max. rewrite compare_coeff by assumption. cbn [obind].
+  destruct (cq x ?= cq y)%Q eqn:C; cbn [zcmp].
+  - exists x. split; [reflexivity |]. split; [now left |]. apply Qeq_alt in C. split; [apply Qle_refl | rewrite C; apply Qle_refl].
+  - exists y. split; [reflexivity |]. split; [now right |]. apply Qlt_alt in C. split; [now apply Qlt_le_weak | apply Qle_refl].
+  - exists x. split; [reflexivity |]. split; [now left |]. apply Qgt_alt in C. split; [apply Qle_refl | now apply Qlt_le_weak].
+Qed.
+
+Lemma clamp_coeff x lo hi : wfc x -> wfc lo -> wfc hi -> (cq lo <= cq hi)%Q ->
+  exists r, clamp (Some (NC x)) (Some (NC lo)) (Some (NC hi)) = Val (Some (NC r)) /\
+            (r = x \/ r = lo \/ r = hi) /\ (cq lo <= cq r)%Q /\ (cq r <= cq hi)%Q /\
+            ((cq lo <= cq x)%Q -> (cq x <= cq hi)%Q -> r = x).
+Proof.
+  intros Hx Hlo Hhi Hle. unfold clamp. rewrite compare_coeff by assumption. cbn [obind].
+  destruct (cq x ?= cq lo)%Q eqn:C1; cbn [zcmp].
+  2:{ apply Qlt_alt in C1. exists lo. split; [reflexivity |]. split; [tauto |].
+      split; [apply Qle_refl |]. split; [exact Hle |]. intros H1 _. exfalso. apply (Qlt_not_le _ _ C1 H1). }
+  all: rewrite compare_coeff by assumption; cbn [obind];
+    assert (Hlx : (cq lo <= cq x)%Q)
+      by (first [apply Qeq_alt in C1; rewrite C1; apply Qle_refl | apply Qgt_alt in C1; now apply Qlt_le_weak]);
+    destruct (cq x ?= cq hi)%Q eqn:C2; cbn [zcmp].
+  all: try (apply Qeq_alt in C2; exists x; split; [reflexivity |]; split; [tauto |];
+            split; [exact Hlx |]; split; [rewrite C2; apply Qle_refl | tauto]).
+  all: try (apply Qlt_alt in C2; exists x; split; [reflexivity |]; split; [tauto |];
+            split; [exact Hlx |]; split; [now apply Qlt_le_weak | tauto]).
+  all: apply Qgt_alt in C2; exists hi; split; [reflexivity |]; split; [tauto |];
+       split; [exact Hle |]; split; [apply Qle_refl |]; intros _ H2; exfalso; apply (Qlt_not_le _ _ C2 H2).
+Qed.
+
+(* to_int / floor / ceil / round on int/rational operands (m/d canonical) *)
+Lemma to_int_coeff x m d : wfc x -> to_rational x = Rat m d ->
+  to_int (Some (NC x)) = Val (Some (Z.quot m d)).
+Proof.
+  intros Hx E. unfold wfc in Hx. rewrite E in Hx. destruct Hx as [Hd _].
+  cbn [to_int]. rewrite E. rewrite bi_divide_ok by lia. reflexivity.
+Qed.
+
+Lemma compare_coeff_int x m d t : wfc x -> to_rational x = Rat m d ->
+  compare (Some (NC x)) (Some (NInt t)) = Val (Some (zcmp (m ?= t * d))).
+Proof.
+  intros Hx E. unfold NInt. rewrite compare_coeff; [| exact Hx | apply wfc_int].
+  unfold cq. rewrite E. unfold wfc in Hx. rewrite E in Hx. destruct Hx as [Hd _].
+  cbn [to_rational]. rewrite qval_compare by lia. now rewrite Z.mul_1_r.
+Qed.
+
+Lemma floor_coeff x m d : wfc x -> to_rational x = Rat m d ->
+  floor (Some (NC x)) = Val (Some (m / d)).
+Proof.
+  intros Hx E. pose proof Hx as Hx'. unfold wfc in Hx'. rewrite E in Hx'. destruct Hx' as [Hd _].
+  unfold floor. rewrite (to_int_coeff x m d Hx E). cbn [obind optz_num option_map].
+  rewrite (compare_coeff_int x m d _ Hx E). cbn [obind].
+  pose proof (Z.quot_rem' m d) as Hqr. pose proof (Z.rem_bound_abs m d ltac:(lia)) as Hb.
+  pose proof (Z.rem_sign_mul m d ltac:(lia)) as Hs.
+  set (t := Z.quot m d) in *. set (r := Z.rem m d) in *.
+  destruct (Z.compare_spec m (t * d)) as [Heq|Hlt|Hgt]; cbn [zcmp need_int].
+  - f_equal. f_equal. apply Z.div_unique with (r := 0); lia.
+  - f_equal. f_equal. apply Z.div_unique with (r := r + d); [left; nia | nia].
+  - f_equal. f_equal. apply Z.div_unique with (r := r); [left; nia | nia].
+Qed.
+
+Lemma ceil_coeff x m d : wfc x -> to_rational x = Rat m d ->
+  ceil (Some (NC x)) = Val (Some (- ((- m) / d))).
+Proof.
+  intros Hx E. pose proof Hx as Hx'. unfold wfc in Hx'. rewrite E in Hx'. destruct Hx' as [Hd _].
+  unfold ceil. rewrite (to_int_coeff x m d Hx E). cbn [obind optz_num option_map].
+  rewrite (compare_coeff_int x m d _ Hx E). cbn [obind].
+  pose proof (Z.quot_rem' m d) as Hqr. pose proof (Z.rem_bound_abs m d ltac:(lia)) as Hb.
+  pose proof (Z.rem_sign_mul m d ltac:(lia)) as Hs.
+  set (t := Z.quot m d) in *. set (r := Z.rem m d) in *.
+  destruct (Z.compare_spec m (t * d)) as [Heq|Hlt|Hgt]; cbn [zcmp need_int].
+  - f_equal. f_equal. assert (Hq : - m / d = - t) by (symmetry; apply Z.div_unique with (r := 0); lia). lia.
+  - f_equal. f_equal. assert (Hq : - m / d = - t) by (symmetry; apply Z.div_unique with (r := - r); [left; nia | nia]). lia.
+  - f_equal. f_equal. assert (Hq : - m / d = - (t + 1)) by (symmetry; apply Z.div_unique with (r := d - r); [left; nia | nia]). lia.
+Qed.
+
+(* floor and ceil bracket the value: f <= m/d < f+1, c-1 < m/d <= c *)
+Lemma floor_ceil_bounds m d : 0 < d ->
+  (m / d) * d <= m < (m / d + 1) * d /\ (- ((- m) / d) - 1) * d < m <= - ((- m) / d) * d.
+Proof.
+  intros Hd. pose proof (Z.div_mod m d ltac:(lia)). pose proof (Z.mod_pos_bound m d Hd).
+  pose proof (Z.div_mod (- m) d ltac:(lia)). pose proof (Z.mod_pos_bound (- m) d Hd). nia.
+Qed.
+
+Lemma gcd_odd_2 f : Z.gcd (f * 2 + 1) 2 = 1.
+Proof. rewrite Z.gcd_comm, Z.add_comm. rewrite Z.gcd_add_mult_diag_r. reflexivity. Qed.
+
+(* round: nearest integer, ties away from zero *)
+Lemma round_coeff x m d : wfc x -> to_rational x = Rat m d ->
+  exists r, round (Some (NC x)) = Val (Some r) /\
+            2 * Z.abs (m - r * d) <= d /\ (2 * Z.abs (m - r * d) = d -> Z.abs m < Z.abs (r * d)).
+Proof.
+  intros Hx E. pose proof Hx as Hx'. unfold wfc in Hx'. rewrite E in Hx'. destruct Hx' as [Hd _].
+  unfold round. rewrite (floor_coeff x m d Hx E). cbn [obind need_int].
+  destruct (floor_ceil_bounds m d Hd) as [[Hf1 Hf2] _].
+  set (f := m / d) in *.
+  assert (Hmid : wfc (CRat (f * 2 + 1) 2)) by (split; [lia | apply gcd_odd_2]).
+  unfold NRat. rewrite !compare_coeff by assumption. cbn [obind].
+  assert (C : (cq x ?= cq (CRat (f * 2 + 1) 2))%Q = (m * 2 ?= (f * 2 + 1) * d)).
+  { unfold cq. rewrite E. cbn [to_rational]. apply qval_compare; lia. }
+  rewrite C.
+  destruct (Z.compare_spec (m * 2) ((f * 2 + 1) * d)) as [Heq|Hlt|Hgt]; cbn [zcmp].
+  - rewrite bi_compare_neg. destruct (Z.ltb_spec f 0) as [Hneg|Hnn].
+    + exists f. split; [reflexivity |]. split; [lia |]. intros _. nia.
+    + exists (f + 1). split; [reflexivity |]. split; [lia |]. intros _. nia.
+  - exists f. split; [reflexivity |]. split; lia.
+  - exists (f + 1). split; [reflexivity |]. split; lia.
+Qed.
